@@ -3,9 +3,9 @@ package main
 // C17 — the unacknowledged-stanza queue is a FIFO with increasing sequence numbers.
 
 import (
-	"sort"
 	"fmt"
 	"go/token"
+	"sort"
 	"strings"
 
 	"golang.org/x/tools/go/ssa"
